@@ -10,6 +10,7 @@
 //     prewarm    comma separated warm-up actions executed by the MAIN thread before the threads are released
 //                (only used to step over known findings): kidok | rangetoken | schemaload | pool (runs the poolwarm.<k> items)
 //     warmcats   comma separated category names for the `rangetoken` warm-up
+//     pool.ser   1: the preloaded pool is serialised and deserialised into a fresh pool (own counting memory manager) before lockPool()
 //     pool.xsd / pool.dtd   grammars preloaded into ONE shared XMLGrammarPoolImpl which is then lockPool()ed
 //     i.<t>.<j>  work item j of thread t: a nested request (same format) with field `k` = item kind:
 //        parse   private parser:           api feat doc ent:<sysid>...
@@ -42,6 +43,10 @@
 #include <pthread.h>
 #include <sched.h>
 #include <set>
+#include <atomic>
+#include <xercesc/framework/BinOutputStream.hpp>
+#include <xercesc/internal/BinMemOutputStream.hpp>
+#include <xercesc/util/BinMemInputStream.hpp>
 using namespace xv;
 
 // ------------------------------------------------------------------------------------------------
@@ -483,6 +488,15 @@ static std::string runItem(const Req& it, XMLGrammarPool* pool, FacSet& fac, con
     return "BADKIND\n";
 }
 
+// memory manager of a restored pool: counts live blocks (relaxed atomics: no happens-before edges are added for ThreadSanitizer)
+struct CountMM : public MemoryManager {
+    std::atomic<long> live{0}, total{0};
+    void* allocate(XMLSize_t n) { live.fetch_add(1, std::memory_order_relaxed); total.fetch_add(1, std::memory_order_relaxed); return ::operator new(n ? n : 1); }
+    void deallocate(void* p) { if (p) { live.fetch_sub(1, std::memory_order_relaxed); ::operator delete(p); } }
+    MemoryManager* getExceptionMemoryManager() { return XMLPlatformUtils::fgMemoryManager; }
+};
+static CountMM* gPoolMM = 0;
+
 struct ThreadCtx {
     int idx = 0;
     const std::vector<Req>* items = 0;
@@ -599,6 +613,21 @@ int main(int argc, char** argv) {
                     poolNote += g ? "xsd " : "xsd-FAILED ";
                 }
             } catch (...) { poolNote += "EXC "; }
+            if (geti(top, "pool.ser", 0)) {
+                // the shared pool is one that was stored and restored: serializeGrammars -> bytes -> deserializeGrammars into a
+                // fresh pool with its own (counting) memory manager; the original pool is discarded before anything is shared
+                try {
+                    BinMemOutputStream out(1 << 16, mm);
+                    pool->serializeGrammars(&out);
+                    gPoolMM = new CountMM;
+                    XMLGrammarPoolImpl* restored = new XMLGrammarPoolImpl(gPoolMM);
+                    BinMemInputStream in(out.getRawBuffer(), (XMLSize_t)out.getSize(), BinMemInputStream::BufOpt_Reference, mm);
+                    restored->deserializeGrammars(&in);
+                    delete pool; pool = restored;
+                    poolNote += "restored(" + std::to_string((long)out.getSize()) + " bytes) ";
+                } catch (const XMLException& e) { poolNote += "SER-EXC " + esc(e.getMessage()) + " "; }
+                catch (...) { poolNote += "SER-EXC "; }
+            }
             pool->lockPool();
         }
         // warm-ups for known findings
@@ -678,8 +707,10 @@ int main(int argc, char** argv) {
         fj += "}"; ff += "}";
         long yields = 0, sleeps = 0, nitems = 0;
         for (int t = 0; t < n; t++) { yields += ctx[t].yields; sleeps += ctx[t].sleeps; nitems += (long)items[t].size(); }
-        printf("XVTHR {\"threads\":%d,\"items\":%ld,\"digests_equal\":%s,\"digests\":%s,\"facilities\":%s,\"first_item\":%s,\"pool\":%s,\"prewarm\":%s,\"yields\":%ld,\"sleeps\":%ld,\"mismatch\":%s}\n",
-               n, nitems, equal ? "true" : "false", digs.c_str(), fj.c_str(), ff.c_str(), jstr(poolNote).c_str(), jstr(get(top, "prewarm")).c_str(), yields, sleeps, jstr(mism).c_str());
+        delete pool; pool = 0;
+        long poolLive = gPoolMM ? gPoolMM->live.load() : -1, poolTotal = gPoolMM ? gPoolMM->total.load() : -1;
+        printf("XVTHR {\"pool_live\":%ld,\"pool_allocs\":%ld,\"threads\":%d,\"items\":%ld,\"digests_equal\":%s,\"digests\":%s,\"facilities\":%s,\"first_item\":%s,\"pool\":%s,\"prewarm\":%s,\"yields\":%ld,\"sleeps\":%ld,\"mismatch\":%s}\n",
+               poolLive, poolTotal, n, nitems, equal ? "true" : "false", digs.c_str(), fj.c_str(), ff.c_str(), jstr(poolNote).c_str(), jstr(get(top, "prewarm")).c_str(), yields, sleeps, jstr(mism).c_str());
         fflush(stdout);
         if (geti(top, "dump", 0)) for (int t = 0; t < n; t++) for (size_t j = 0; j < items[t].size(); j++) fprintf(stderr, "=== %d.%zu\n%s", t, j, ctx[t].results[j].c_str());
         if (!equal) rc = 3;
